@@ -122,7 +122,8 @@ def run_seed(sid, official=False):
         else:
             vd, repo = wt + ".verif", wt
             os.makedirs(vd, exist_ok=True)
-            sh(f"rsync -a --delete --exclude target --exclude .git --exclude replays --exclude evidence --exclude seeded {V}/ {vd}/")
+            # the committed state of /verif (not the working tree, which may be mid-edit)
+            sh(f"rm -rf {vd}; mkdir -p {vd}; git -C {V} archive HEAD -- . ':!seeded' ':!evidence' | tar -x -C {vd}")
             sh(f"sed -i 's#path = \"/repo\"#path = \"{wt}\"#' {vd}/harness*/Cargo.toml")
         sh(f"git -C {repo} apply {sd}/patch.diff")
         det = {}
